@@ -68,6 +68,7 @@ type gen struct {
 	apiKey  int16
 	toks    []Tok
 	err     error
+	prev    []string // strings generated for this message so far (some are used again: repeated topic names)
 }
 
 const tsBase = int64(1600000000000)
@@ -157,6 +158,11 @@ func (g *gen) fill(v reflect.Value, nullable bool, path string) {
 	case reflect.String:
 		n := g.pick(g.cfg.strLens)
 		s := g.randString(n)
+		if len(g.prev) > 0 && g.cfg.rng.Intn(10) < 3 {
+			s = g.prev[g.cfg.rng.Intn(len(g.prev))]
+		} else if s != "" {
+			g.prev = append(g.prev, s)
+		}
 		v.SetString(s)
 		g.strTok(path, "s", []byte(s), nullable && s == "")
 	case reflect.Slice:
